@@ -1,6 +1,7 @@
 mod interp;
 mod prog;
 mod dfs;
+mod randcheck;
 mod rec;
 mod sample;
 mod serial;
@@ -250,6 +251,15 @@ fn cmd_one(args: &[String]) {
     if args.iter().any(|a| a == "--slen") {
         interp::LOG_SLEN.store(true, std::sync::atomic::Ordering::Relaxed);
     }
+    if arg(args, "--mode") == Some("rand") {
+        let iters: usize = arg(args, "--iters").unwrap_or("50").parse().unwrap();
+        let seed: u64 = arg(args, "--seed").unwrap_or("1").parse().unwrap();
+        let (leaves, capped) = dfs::walk_leaves(p, 400);
+        let meta = randcheck::rand_program(p, iters, seed.wrapping_mul(104729).wrapping_add(p.id as u64), if capped { None } else { Some(leaves) });
+        write_trie(&Trie::new(), &format!("{out}/p{idx}.trie"));
+        std::fs::write(format!("{out}/p{idx}.meta"), meta.to_string()).unwrap();
+        return;
+    }
     if arg(args, "--mode") == Some("dfs") {
         let (meta, log) = dfs::dfs_program(p, cap);
         let f = std::fs::File::create(format!("{out}/p{idx}.dfslog")).unwrap();
@@ -439,6 +449,8 @@ fn main() {
     panic::set_hook(Box::new(|info| {
         if !IN_EXEC.load(std::sync::atomic::Ordering::Relaxed) {
             eprintln!("vharness: {info}");
+        } else if std::env::var("VDEBUG").is_ok() {
+            eprintln!("vharness(in-exec): {info}\n{}", std::backtrace::Backtrace::force_capture());
         }
     }));
     match args.get(1).map(|s| s.as_str()) {
